@@ -20,6 +20,13 @@
 (* driver projected at the end is reachable).  If two invocations really were  *)
 (* past lock acquisition at once, or a contender got in while the holder was   *)
 (* still alive, no interleaving exists: the trace is rejected.                 *)
+(*                                                                             *)
+(* Beyond the listed properties: concurrent READERS.  `result show` processes  *)
+(* run next to the mutating ones and take no lock; the driver logs `start` and *)
+(* `shown` (reaped: what it answered).  The read itself is a third silent step *)
+(* (ReadNow) somewhere in between: the answer must be the pointer's slot with  *)
+(* its result stored AS OF SOME INSTANT of the behaviour, or "nothing" if      *)
+(* there was none then - a reader never sees a slot half-way (drift note only).*)
 EXTENDS Monorail, Json, IOUtils
 
 Tr == ndJsonDeserialize(IOEnv.TRACE)
@@ -29,11 +36,12 @@ MCCfg == [targets |-> << [path |-> <<"a">>, uses |-> <<>>, ignores |-> <<>>],
 MCComp == [p \in {"af", "bf", "cf"} |-> CASE p = "af" -> <<"a", "f">> [] p = "bf" -> <<"b", "f">> [] OTHER -> <<"c", "f">>]
 
 CONSTANT PrefixN
-VARIABLES l, doomed          \* doomed: invocations the driver has sent SIGKILL to (they die at some instant after that)
-tvars == <<vars, l, doomed>>
+VARIABLES l, doomed,         \* doomed: invocations the driver has sent SIGKILL to (they die at some instant after that)
+          view                \* view[p]: what reader p saw at its (silent) read instant: -1 not yet, 0 nothing, k slot k
+tvars == <<vars, l, doomed, view>>
 Ev == Tr[l]
 Is(e) == l <= Len(Tr) /\ Ev.e = e
-Consume == l' = l + 1 /\ UNCHANGED doomed
+Consume == l' = l + 1 /\ UNCHANGED <<doomed, view>>
 
 \* checkpoint update: the repository read and the truncation have one hook between them and the next (cp.truncated)
 CpReadTruncate(p) ==
@@ -69,16 +77,23 @@ Event ==
   \/ Is("edit") /\ EnvEdit(Ev.path, Ev.c) /\ Consume
   \/ Is("commit") /\ EnvCommitAll /\ Consume
   \* SIGKILL sent: from now on the invocation may die at any instant (silent); `reaped` = the driver has seen it dead
-  \/ Is("kill_sent") /\ doomed' = doomed \cup {p} /\ l' = l + 1 /\ UNCHANGED vars
+  \/ Is("kill_sent") /\ doomed' = doomed \cup {p} /\ l' = l + 1 /\ UNCHANGED <<vars, view>>
+  \* a reader has answered: what it answered is what it saw at its read instant
+  \/ Is("shown") /\ view[p] = (IF Ev.ok THEN Ev.slot ELSE 0) /\ ResultShow(p)
+                 /\ view' = [view EXCEPT ![p] = -1] /\ l' = l + 1 /\ UNCHANGED doomed
   \/ Is("reaped") /\ inv[p] = Idle /\ UNCHANGED vars /\ Consume
   \* exit: whoever got the lock has finished (silent Finish); whoever did not has lost (silent TryLock) with a lock error
   \/ Is("exit") /\ inv[p] = Idle /\ UNCHANGED vars /\ Consume
 Die(p) == /\ p \in doomed /\ inv[p] # Idle
           /\ IF inv[p].pc \in PastLock THEN Crash(p)
              ELSE inv' = [inv EXCEPT ![p] = Idle] /\ UNCHANGED <<repo, store, cpfile, holder, nruns, nedits, actor, obs>>
-Silent == \E p \in Procs : (TryLock(p) \/ Finish(p) \/ Die(p)) /\ UNCHANGED <<l, doomed>>
+ReadNow(p) == /\ inv[p].pc = "start" /\ inv[p].api = "result_show" /\ view[p] = -1
+              /\ view' = [view EXCEPT ![p] = IF ResultShows(store, N) # 0 THEN store.ptr ELSE 0]
+              /\ UNCHANGED <<vars, l, doomed>>
+Silent == \E p \in Procs : \/ ((TryLock(p) \/ Finish(p) \/ Die(p)) /\ UNCHANGED <<l, doomed, view>>)
+                            \/ ReadNow(p)
 TNext == Event \/ Silent
-TSpec == Init /\ l = 1 /\ doomed = {} /\ [][TNext]_tvars
+TSpec == Init /\ l = 1 /\ doomed = {} /\ view = [p \in Procs |-> -1] /\ [][TNext]_tvars
 
 \* a loser must have left with a lock error, a winner not: checked on the trace itself (constant-level)
 Losers == { i \in DOMAIN Tr : Tr[i].e = "exit" /\ Tr[i].lockerr }
